@@ -175,6 +175,14 @@ def gen_case(kind, profile, seed, tier='quick'):
 # ----------------------------------------------------------------------- exec
 def exec_case(case, d):
     k = case['kind']
+    if k == 'chain':
+        # earlier simulations of the same interpreter first (their verdicts are not of interest here), then the case
+        for (kind, profile, seed, tier) in case['hist']:
+            try:
+                exec_case(gen_case(kind, profile, seed, tier), d)
+            except Exception:
+                pass
+        return exec_case(case['case'], d)
     if k == 'sim':
         res = sut.run_scenario(case['sc'], d)
         return _out(res)
